@@ -534,6 +534,9 @@ type vrReader struct {
 	calls   int
 	failAt  int
 	maxRead int
+	// failPartial > 0: the failing call hands out that many bytes together with its error (which the io.Reader
+	// contract allows), and the reader works again afterwards - a source that recovers after a fault
+	failPartial int
 }
 
 func vrNewReader(chunks ...[]byte) *vrReader {
@@ -547,7 +550,19 @@ func vrNewReader(chunks ...[]byte) *vrReader {
 func (r *vrReader) Read(p []byte) (int, error) {
 	if r.failAt >= 0 && r.calls == r.failAt {
 		r.calls++
-		return 0, errors.New("scripted reader failure")
+		k := 0
+		if r.failPartial > 0 {
+			m := r.failPartial
+			if m > len(p)-1 {
+				m = len(p) - 1 // never completes the buffer: a call that fills it is a successful draw for io.ReadFull
+			}
+			if m < 0 {
+				m = 0
+			}
+			k = copy(p[:m], r.data[r.pos:])
+			r.pos += k
+		}
+		return k, errors.New("scripted reader failure")
 	}
 	r.calls++
 	if r.pos >= len(r.data) {
@@ -678,7 +693,39 @@ func vrKeyPool(c *vrCase, size int) []vrKeyPair {
 	for len(ks) < size {
 		ks = append(ks, vrMkKey(vrRandKey(c.rng)))
 	}
+	// public keys whose x (resp. y) coordinate starts with a zero byte: every place that serialises coordinates must
+	// keep the full 32 bytes (about one key in 128 has such a coordinate)
+	ks = append(ks, vrLeadingZeroKeys()...)
 	return ks
+}
+
+var vrLZKeys []vrKeyPair
+
+// vrLeadingZeroKeys: the smallest d >= 2 with px[0] == 0 and the smallest with py[0] == 0 (found once by search).
+func vrLeadingZeroKeys() []vrKeyPair {
+	if vrLZKeys != nil {
+		return vrLZKeys
+	}
+	var kx, ky *vrKeyPair
+	pt := vrMulPt(big.NewInt(2), vrG)
+	for d := int64(2); d < 20000 && (kx == nil || ky == nil); d++ {
+		if kx == nil && vrB32(pt.x)[0] == 0 {
+			k := vrMkKey(big.NewInt(d))
+			kx = &k
+		}
+		if ky == nil && vrB32(pt.y)[0] == 0 {
+			k := vrMkKey(big.NewInt(d))
+			ky = &k
+		}
+		pt = vrAddPt(pt, vrG)
+	}
+	if kx != nil {
+		vrLZKeys = append(vrLZKeys, *kx)
+	}
+	if ky != nil {
+		vrLZKeys = append(vrLZKeys, *ky)
+	}
+	return vrLZKeys
 }
 
 var vrT248 = new(big.Int).Lsh(big.NewInt(1), 248)
@@ -784,6 +831,27 @@ func vrCaseSignHashed(c *vrCase) {
 		var r, s []byte
 		var err error
 		in := fmt.Sprintf(`{"priv":"%s","e":"%s","rand":"%s","failAtRead":%d}`, vrHex(d), vrHex(e), vrHex(rd.data), rd.failAt)
+		if p := vrTry(func() { r, s, err = SignHashed(rd, d, e) }); p != "" {
+			c.check(false, in, p, "err!=nil,r=nil,s=nil")
+			continue
+		}
+		c.check(err != nil && r == nil && s == nil, in, fmt.Sprintf("err=%v,r=%s,s=%s", err, vrHex(r), vrHex(s)), "err!=nil,r=nil,s=nil")
+	}
+	// a failing call that also hands out part of a candidate, from a source that then recovers: still an error, never a
+	// signature made from a candidate that straddles the fault (first draw, and after a rejected candidate; short reads too)
+	for i := 0; i < 12; i++ {
+		d := vrB32(vrRandKey(c.rng))
+		e := vrRandE(c.rng)
+		rd := vrNewReader(vrB32(vrN), vrB32(vrRandNonce(c.rng)), vrB32(vrRandNonce(c.rng)), vrB32(vrRandNonce(c.rng)))
+		rd.failAt = i % 2 // the second candidate is accepted: later calls are never made
+		rd.failPartial = []int{1, 16, 31, 7}[i%4]
+		if i >= 6 {
+			rd.maxRead = 8
+			rd.failAt = []int{0, 2, 4, 5, 7, 3}[i-6]
+		}
+		var r, s []byte
+		var err error
+		in := fmt.Sprintf(`{"priv":"%s","e":"%s","rand":"%s","failAtRead":%d,"bytesWithError":%d,"maxRead":%d}`, vrHex(d), vrHex(e), vrHex(rd.data), rd.failAt, rd.failPartial, rd.maxRead)
 		if p := vrTry(func() { r, s, err = SignHashed(rd, d, e) }); p != "" {
 			c.check(false, in, p, "err!=nil,r=nil,s=nil")
 			continue
@@ -1443,6 +1511,24 @@ func vrCaseGenerateKey(c *vrCase) {
 		rd := vrNewReader(rejected[0], rejected[1], rejected[2], vrB32(vrRandKey(c.rng)))
 		rd.failAt = i
 		in := fmt.Sprintf(`{"rand":"%s","failAtRead":%d}`, vrHex(rd.data), i)
+		var x, y []byte
+		var err error
+		if p := vrTry(func() { _, x, y, err = GenerateKey(rd) }); p != "" {
+			c.check(false, in, p, "err!=nil,x=nil,y=nil")
+			continue
+		}
+		c.check(err != nil && x == nil && y == nil, in, fmt.Sprintf("err=%v,x=%s,y=%s", err, vrHex(x), vrHex(y)), "err!=nil,x=nil,y=nil")
+	}
+	// a failing call that also hands out part of a candidate, from a source that then recovers
+	for i := 0; i < 12; i++ {
+		rd := vrNewReader(rejected[0], rejected[1], vrB32(vrRandKey(c.rng)), vrB32(vrRandKey(c.rng)), vrB32(vrRandKey(c.rng)))
+		rd.failAt = i % 3
+		rd.failPartial = []int{1, 16, 31, 7}[i%4]
+		if i >= 6 {
+			rd.maxRead = 8
+			rd.failAt = []int{0, 2, 4, 5, 9, 3}[i-6]
+		}
+		in := fmt.Sprintf(`{"rand":"%s","failAtRead":%d,"bytesWithError":%d,"maxRead":%d}`, vrHex(rd.data), rd.failAt, rd.failPartial, rd.maxRead)
 		var x, y []byte
 		var err error
 		if p := vrTry(func() { _, x, y, err = GenerateKey(rd) }); p != "" {
